@@ -280,12 +280,14 @@ def build_cases(tier: str, seed: int) -> list[dict[str, Any]]:
     cases += cs.svc_boundary()
     cases += cs.svc_defaults()
     cases += cs.svc_reset(tier)
+    cases += cs.svc_slow_tp(tier)
     ab = cs.svc_abstract("quick")
     cases += ab[::5] if tier == "quick" else ab
     if tier == "thorough":
         cases += cs.svc_abstract("thorough")[1::5]
     cases += cs.svc_random(tier, seed, _services_of)
     cases += cs.ident_scripted(tier, seed)
+    cases += cs.ident_slow_tp(tier, seed)
     cases += cs.ident_random(tier, seed, _services_of)
     return cases
 
@@ -312,6 +314,10 @@ def run(tier: str, seed: int) -> Report:
         "leave_session / power cycling: no power supply in the sandbox (power_supply=None, power_cycle() returns "
         "False); ECUReset is answered by the ECU model (positive, or negative -> reconnect path)",
         "skip_not_supported, --reset, --ecu-reset, database logging are left at their defaults",
+        "families svc-slow-tp / ident-slow-tp: cyclic TesterPresent ON (interval 0.08 .. 0.5 s), UDS timeout 0.6 .. 2 s, "
+        "honest ECUs whose every answer takes a latency (fixed or jittering) between the two, plus a fast control; the "
+        "initial ping and the between-session recovery of the identifier scan (wait_for_ecu, fixed 0.5 s per ping) are "
+        "only combined with latencies of at most 0.3 s; a keep-alive sent with the suppress bit (3E 80) is not answered",
         "skip with no session list is not generated (documented as without effect; statement silent)",
         "RandomUDSServer: SecurityAccess identifier scans are left out (its seeds come from an unseeded RNG)",
         "importlib.metadata.entry_points is memoised in the harness process (speed only)",
